@@ -253,7 +253,17 @@ func TestVerifConfig(t *testing.T) {
 		h.cc = &vCC{scs: map[int]*vSubConn{}, harness: h}
 		b := balancer.Get(Name).Build(h.cc, balancer.BuildOptions{})
 		gb := b.(*gcpBalancer)
-		b.UpdateClientConnState(balancer.ClientConnState{ResolverState: resolver.State{Addresses: []resolver.Address{{Addr: "a1"}}}, BalancerConfig: caller})
+		// the first update arrives with addresses, without any (the pool stays empty), or while the
+		// connection factory fails (the pool stays empty too): the configuration is fixed all the same
+		firstAddrs := []resolver.Address{{Addr: "a1"}}
+		switch len(text) % 3 {
+		case 1:
+			firstAddrs = nil
+		case 2:
+			h.cc.failN = 1 << 30
+		}
+		b.UpdateClientConnState(balancer.ClientConnState{ResolverState: resolver.State{Addresses: firstAddrs}, BalancerConfig: caller})
+		h.cc.failN = 0
 		after, _ := proto.MarshalOptions{Deterministic: true}.Marshal(caller.ApiConfig)
 		mutated := 0
 		if string(before) != string(after) {
